@@ -409,7 +409,16 @@ def c20(res, rng, tier):
     env = {"GORACE": "halt_on_error=1 exitcode=66"}
     exe = os.path.join(C.GOH, "implrun_race")
     # a few shards only: the point is concurrency inside each process
-    out = C.run_lines(exe, lines, shards=4, ulimit_stack=False, env=env, extra_args=["-timeout", "120s"])
+    out = C.run_lines(exe, lines, shards=(4 if q else 2), ulimit_stack=False, env=env, extra_args=["-timeout", "120s"])
+    # A runtime crash of one process without a race report (seen under a loaded machine: several
+    # race-instrumented processes with 64 goroutines each) takes all later lines of its shard with it.
+    # Those lines are run again in one sequential process; only what fails again is reported.
+    redo = [i for i, o in enumerate(out) if o.startswith("CRASHED") and "DATA RACE" not in o and "rc=66" not in o]
+    if redo:
+        again = C.run_lines(exe, [lines[i] for i in redo], shards=1, ulimit_stack=False, env=env, extra_args=["-timeout", "300s"])
+        for i, a in zip(redo, again):
+            out[i] = a
+        res.notes.append("%d cases were re-run sequentially after a race-enabled process crashed without a race report" % len(redo))
     nontriv = 0
     for i, o in enumerate(out):
         if o in ("ok", "skip"):
@@ -417,15 +426,6 @@ def c20(res, rng, tier):
             continue
         if o.startswith("CRASHED") and "DATA RACE" not in o and i > 0 and out[i - 1].startswith("CRASHED"):
             continue          # lines after the one that stopped the process
-        if o.startswith("CRASHED") and "DATA RACE" not in o and "rc=66" not in o:
-            # a runtime crash without a race report (resource exhaustion under a loaded machine has
-            # been seen once): run the case again on its own; only a repeatable failure counts
-            again = [C.run_lines(exe, [lines[i]], shards=1, ulimit_stack=False, env=env, extra_args=["-timeout", "300s"])[0] for _ in range(2)]
-            if all(a in ("ok", "skip") for a in again):
-                res.notes.append("one case crashed the race-enabled process without a race report and passed twice when re-run alone: %s" % lines[i][:120])
-                nontriv += 1
-                continue
-            o = again[0] if again[0] not in ("ok", "skip") else again[1]
         what = ("data race reported by the Go race detector" if "DATA RACE" in o or "rc=66" in o
                 else "concurrent results differ from the sequential ones: " + o[:200])
         res.violation(what, {"kind": "impl", "case": lines[i][:800], "observed": o[:1200],
